@@ -10,6 +10,7 @@ stage.  The model is tied to the code by bit-exact differential correspondence (
 -/
 import HermesProofs.Evatra
 import HermesProofs.Water
+import HermesProofs.EvatraPet
 namespace Hermes.Evatra
 
 /-- Admissible input of the partition: positive layer thickness, `elai = exp(-.5·LAI) ∈ [0,1]`,
@@ -264,3 +265,401 @@ example : (Water.limitTp (10 : ℚ) [0.5] [0.12] [0.1])[0]? = some (((0.12 : ℚ
   simp only [Water.limitTp]; norm_num
 
 end Hermes.Evatra
+
+/-! ## The potential-ET part: five methods, `stomat`, day length (HermesModel/EvatraPet.lean)
+
+The value of every transcendental call is a free variable (`Tr ℚ`); what a theorem assumes about
+one of them is a named hypothesis (`exp > 0`, `pow(x, 2) = x²`, `log x ≥ 0` for `x ≥ 1`, the range of
+the arc sine, …).  The model is tied to `hermes.Evatra` bit for bit by the kernels `pet.day` and
+`evatra.full` (harness/cmd/check/c08_pet.go), with Go's own `math` functions as the oracle. -/
+namespace Hermes.EvatraPet
+open Hermes.Evatra
+
+/-- the daily cap -/
+def cap (crop : Bool) : ℚ := if crop then 0.65 else 0.6
+
+/-- **Every method, every input.** The crop coefficient is applied to the method's value first,
+then the floor at zero, then the cap (water.go:289-298, 462-470): whatever the method number, the
+weather, the site, the coefficients and the values of the transcendental calls are, the potential
+ET handed to the partition is `min cap (max 0 raw)` and lies in [0, cap]. No hypothesis. -/
+theorem C08_pet_method_bounds (i : PIn ℚ) (t : Tr ℚ) (elai : ℚ) :
+    verdunst i t elai = min (cap i.crop) (max 0 (petRaw i t).verdu0) ∧
+    0 ≤ verdunst i t elai ∧ verdunst i t elai ≤ cap i.crop := by
+  unfold verdunst cap
+  exact ⟨capSplit_fst_eq _ _ _, capSplit_fst_nonneg _ _ _, capSplit_le _ _ _⟩
+
+/-- **Haude** (method 1): the raw value is VERD · (Haude factor of the month, crop or bare) · 0.1;
+the month index is always one of 1…12 (so with twelve factors one of them is taken). -/
+theorem C08_haude_bounds (i : PIn ℚ) (t : Tr ℚ) (elai : ℚ) (h : i.meth = 1) :
+    (petRaw i t).verdu0 = i.verd * monthFactor (if i.crop then i.fkf else i.fku) i.tagN * 0.1 ∧
+    (1 ≤ fkm i.tagN ∧ fkm i.tagN ≤ 12) ∧
+    0 ≤ verdunst i t elai ∧ verdunst i t elai ≤ cap i.crop := by
+  refine ⟨?_, fkm_range _, (C08_pet_method_bounds i t elai).2⟩
+  unfold petRaw
+  cases hc : i.crop <;> simp [h, keep]
+
+/-- **Turc-Wendling** (method 2): the crop coefficient (FKC under a crop, FKB on bare soil) is the
+last-but-one factor of the raw value, before floor and cap. -/
+theorem C08_turc_bounds (i : PIn ℚ) (t : Tr ℚ) (elai : ℚ) (h : i.meth = 2) :
+    (petRaw i t).verdu0 =
+      turc i.crop i.rad i.sund i.temp i.kcoa 1 (dayLength t) * (if i.crop then i.fkc else i.fkb) ∧
+    0 ≤ verdunst i t elai ∧ verdunst i t elai ≤ cap i.crop := by
+  refine ⟨?_, (C08_pet_method_bounds i t elai).2⟩
+  have hraw : (petRaw i t).verdu0 =
+      turc i.crop i.rad i.sund i.temp i.kcoa (if i.crop then i.fkc else i.fkb) (dayLength t) := by
+    unfold petRaw
+    cases hc : i.crop <;> simp [h, keep]
+  rw [hraw, turc_linear]
+
+/-- **ET0 column** (method 5): raw = ETNULL · kc · 0.1; a negative sentinel in the column gives a
+negative raw value, which the floor removes. -/
+theorem C08_et0column_bounds (i : PIn ℚ) (t : Tr ℚ) (elai : ℚ) (h : i.meth = 5) :
+    (petRaw i t).verdu0 = i.etnull * (if i.crop then i.fkc else i.fkb) * 0.1 ∧
+    (i.etnull < 0 → 0 < (if i.crop then i.fkc else i.fkb) → verdunst i t elai = 0) ∧
+    0 ≤ verdunst i t elai ∧ verdunst i t elai ≤ cap i.crop := by
+  have hraw : (petRaw i t).verdu0 = i.etnull * (if i.crop then i.fkc else i.fkb) * 0.1 := by
+    unfold petRaw
+    cases hc : i.crop <;> simp [h, keep]
+  refine ⟨hraw, ?_, (C08_pet_method_bounds i t elai).2⟩
+  intro hn hk
+  rw [(C08_pet_method_bounds i t elai).1, hraw]
+  have : i.etnull * (if i.crop then i.fkc else i.fkb) * 0.1 ≤ 0 := by nlinarith
+  rw [max_eq_left this]
+  unfold cap
+  split_ifs <;> norm_num
+
+/-- **Priestley-Taylor and Penman-Monteith** (methods 4 and 3): the reference ET is floored at zero
+by the method itself (water.go:201-203, 286-288, 381-383, 459-461) for every input, the raw value
+is ET0 · kc · 0.1 with the coefficient the call leaves in FKC (FKB on bare soil), so with a
+non-negative coefficient the raw value is already non-negative. -/
+theorem C08_reference_et_bounds (i : PIn ℚ) (t : Tr ℚ) (elai : ℚ) (h : i.meth = 3 ∨ i.meth = 4) :
+    0 ≤ (petRaw i t).et0 ∧
+    (petRaw i t).verdu0 = (petRaw i t).et0 * (petRaw i t).fkc * 0.1 ∧
+    (petRaw i t).fkc = (if i.crop then i.fkc else i.fkb) ∧
+    (0 ≤ (petRaw i t).fkc → 0 ≤ (petRaw i t).verdu0) ∧
+    0 ≤ verdunst i t elai ∧ verdunst i t elai ≤ cap i.crop := by
+  have key : 0 ≤ (petRaw i t).et0 ∧ (petRaw i t).verdu0 = (petRaw i t).et0 * (petRaw i t).fkc * 0.1 ∧
+      (petRaw i t).fkc = (if i.crop then i.fkc else i.fkb) := by
+    unfold petRaw
+    rcases h with h | h
+    · cases hc : i.crop <;> simp [h, penman, floor0_nonneg]
+    · cases hc : i.crop <;> simp [h, keep, priestleyEt0, floor0_nonneg]
+  refine ⟨key.1, key.2.1, key.2.2, ?_, (C08_pet_method_bounds i t elai).2⟩
+  intro hk
+  rw [key.2.1]
+  have := mul_nonneg key.1 hk
+  linarith
+
+/-- **Wind floor.** The wind speed the Penman-Monteith formula uses (and leaves in the weather
+record of the day) is at least 0.5 m/s, whatever was measured at whatever height. -/
+theorem C08_wind_floor (i : PIn ℚ) (t : Tr ℚ) (h : i.meth = 3) : 0.5 ≤ (petRaw i t).wind := by
+  unfold petRaw
+  cases hc : i.crop <;> simp [h, penman, penmanParts] <;> exact wind2m_ge _ _ _
+
+/-- **Day length clamps.** With the arc sine in its range [−π/2, π/2] (its argument is clamped to
+[−1, 1] by `Limit`, polar day and polar night included) the astronomical and the effective day
+length lie in [0, 24] h, and the effective one is the shorter when the arc sines are ordered. -/
+theorem C08_daylength_range (t : Tr ℚ)
+    (h1 : -(pi / 2) ≤ t.asDL ∧ t.asDL ≤ pi / 2) (h2 : -(pi / 2) ≤ t.asDLE ∧ t.asDLE ≤ pi / 2) :
+    (0 ≤ (dayLength t).dl ∧ (dayLength t).dl ≤ 24) ∧ (0 ≤ (dayLength t).dle ∧ (dayLength t).dle ≤ 24) ∧
+    (t.asDLE ≤ t.asDL → (dayLength t).dle ≤ (dayLength t).dl) ∧
+    (∀ v : ℚ, -1 ≤ limit v 1 (-1) ∧ limit v 1 (-1) ≤ 1) := by
+  refine ⟨?_, ?_, dle_le_dl t, limit_range⟩
+  · rw [dayLength_dl]; exact hours_range _ h1.1 h1.2
+  · rw [dayLength_dle]; exact hours_range _ h2.1 h2.2
+
+/-- **Denominators of Turc-Wendling**: 150·(TEMP + 123) (radiation given; bare soil) and
+150·(TEMP − 1 + 123) (sunshine hours under a crop) are positive above −122 °C; the third division,
+by the day length, is guarded by `DL > 0` in the code. -/
+theorem C08_turc_denominators_pos (temp : ℚ) (h : -122 < temp) :
+    0 < turcDen temp ∧ 0 < turcDenSunCrop temp :=
+  ⟨turcDen_pos temp (by linarith), turcDenSunCrop_pos temp h⟩
+
+/-- Assumptions on the transcendental values used by the denominators of the two radiation
+methods: `exp` is positive, `pow(x, 2)` is the square, `pow(x, 5.26)` of a positive base is positive. -/
+structure RadOk (i : PIn ℚ) (t : Tr ℚ) : Prop where
+  temp : -237.3 < i.temp
+  tmin : -237.3 < i.tmin
+  tmax : -237.3 < i.tmax
+  alti : i.alti < 45000          -- base of the pressure power (293 − 0.0065·ALTI)/293 positive
+  eT : 0 < t.eT
+  eTmin : 0 < t.eTmin
+  eTmax : 0 < t.eTmax
+  pT2 : t.pT2 = (i.temp + 237.3) * (i.temp + 237.3)
+  pAtm : 0 < t.pAtm
+
+/-- **Denominators of Priestley-Taylor**: TEMP + 237.3 and TMIN + 237.3 (inside the exponents),
+pow(TEMP + 237.3, 2) (slope Δ), and Δ + γ (crop branch) are positive; RS0 is positive whenever
+the extraterrestrial radiation is (it is 0 in the polar night: the unguarded RAD·2/RS0 of
+water.go:179, 258, 358 is then +Inf in IEEE arithmetic and clipped to 1 by the next line). -/
+theorem C08_priestley_denominators_pos (i : PIn ℚ) (t : Tr ℚ) (h : RadOk i t) :
+    0 < i.temp + 237.3 ∧ 0 < i.tmin + 237.3 ∧ 0 < t.pT2 ∧ 0 < deltsat t.eT t.pT2 ∧
+    0 < deltsat t.eT t.pT2 + psych t.pAtm ∧
+    (∀ ext : ℚ, 0 < ext → -37500 < i.alti → 0 < rs0 i.alti ext) := by
+  have h1 : 0 < i.temp + 237.3 := by have := h.temp; linarith
+  have h2 : 0 < t.pT2 := by rw [h.pT2]; exact mul_pos h1 h1
+  have h3 := deltsat_pos t.eT t.pT2 h.eT h2
+  have h4 := psych_pos t.pAtm h.pAtm
+  exact ⟨h1, by have := h.tmin; linarith, h2, h3, by linarith, fun ext he ha => rs0_pos _ _ ha he⟩
+
+/-- **Denominators of Penman-Monteith** for the state `st` = (RSTOM, SUND, RADSUM) left by `stomat`
+with a non-negative canopy resistance: the exponents' TEMP/TMIN/TMAX + 237.3, pow(TEMP + 237.3, 2),
+TEMP + 273, the logarithm of the wind-height conversion (measuring height above 0.0947 m, i.e.
+67.8·WINDHI − 5.42 > 1, assumed: log of a number above 1 is positive), and the denominator
+Δ + γ·(1 + rs/208·u₂) of the formula itself (u₂ ≥ 0.5 by the wind floor). -/
+theorem C08_penman_denominators_pos (crop : Bool) (i : PIn ℚ) (t : Tr ℚ) (s : Sol ℚ) (st : ℚ × ℚ × ℚ)
+    (h : RadOk i t) (hst : 0 ≤ st.1)
+    (hlog : 1 < 67.8 * i.windhi - 5.42 → 0 < t.logW) (hwh : 0.0947 < i.windhi) :
+    0 < i.temp + 237.3 ∧ 0 < 237.3 + i.tmin ∧ 0 < 237.3 + i.tmax ∧ 0 < t.pT2 ∧ 0 < i.temp + 273.0 ∧
+    t.logW ≠ 0 ∧ 0.5 ≤ (penmanParts crop i t s st).wind ∧ 0 ≤ (penmanParts crop i t s st).rsurf ∧
+    0 < (penmanParts crop i t s st).den := by
+  have p := C08_priestley_denominators_pos i t h
+  have hw : 0.5 ≤ wind2m i.wind i.windhi t.logW := wind2m_ge _ _ _
+  have hl : 0 < t.logW := hlog (by linarith)
+  have hr : 0 ≤ (penmanParts crop i t s st).rsurf := by
+    unfold penmanParts
+    simp only
+    split_ifs
+    · norm_num
+    · exact div_nonneg hst (by norm_num)
+  refine ⟨p.1, by have := h.tmin; linarith, by have := h.tmax; linarith, p.2.2.1, by norm_num; linarith,
+    hl.ne', hw, hr, ?_⟩
+  have : (penmanParts crop i t s st).den =
+      penmanDen (deltsat t.eT t.pT2) (psych t.pAtm) (penmanParts crop i t s st).rsurf (wind2m i.wind i.windhi t.logW) := by
+    unfold penmanParts; rfl
+  rw [this]
+  exact penmanDen_pos _ _ _ _ p.2.2.2.1 (psych_pos _ h.pAtm) hr (by linarith)
+
+/-- **CO2 response of method 2** (`stomat`, water.go:711-729): with a non-negative radiation term
+(RAD·20 or the sunshine estimate) the three denominators of KCO2 are positive above 80 ppm CO2. -/
+theorem C08_kco2_denominators_pos (co2 g : ℚ) (hg : 0 ≤ g) (h : 80 < co2) :
+    0 < (220.0 + 0.158 * g) + co2 - (80.0 - 0.0036 * g) ∧ 0 < 350.0 - (80.0 - 0.0036 * g) ∧
+    0 < (220.0 + 0.158 * g) + 350.0 - (80.0 - 0.0036 * g) := by
+  have := kco2_denominators_pos co2 (220.0 + 0.158 * g) (80.0 - 0.0036 * g) (by norm_num; linarith) (by norm_num; linarith) h
+  exact ⟨this.1, this.2.1, this.2.2.1⟩
+
+/-- What the positivity of the canopy resistance rests on: positive crop constants and CO2, a
+non-negative saturation deficit and sunshine duration, a day on which the effective day is not
+longer than the astronomical one, the clear-day radiation and the sine of the noon elevation are
+positive when the sun rises above 8°, **CO2 above the compensation point 17.5·2^((T−10)/10) in the
+first CO2 method**, `log x ≥ 0` for `x ≥ 1`, `0 < exp(−1.152) < 1`, `0 ≤ exp x < 1` for `x < 0`. -/
+structure StomatOk (i : PIn ℚ) (t : Tr ℚ) (s : Sol ℚ) (satdef : ℚ) : Prop where
+  alph : 0 < i.alph
+  co2 : 0 < i.co2
+  satbeta : 0 < i.satbeta
+  satdef : 0 ≤ satdef
+  sund : 0 ≤ i.sund
+  dl : s.dle ≤ s.dl
+  drc : 0 < s.dle → 0 < s.drc
+  ssl : 0 < s.dle → 0 < t.sSsl ∧ t.sSsl ≤ 1
+  comp : i.co2meth = 1 → 0 < t.p2T ∧ 17.5 * t.p2T < i.co2
+  logX : 1 ≤ (photo i t s).xArg → 0 ≤ t.logX
+  logY : 1 ≤ (photo i t s).yArg → 0 ≤ t.logY
+  eGrass : 0 < t.eGrass ∧ t.eGrass < 1
+  eC : saturArg (photo i t s).phc3 (photo i t s).phc4 < 0 → t.eC < 1
+  eO : saturArg (photo i t s).pho3 (photo i t s).phc4 < 0 → t.eO < 1
+
+/-- **Canopy resistance positive** (partial: for the first CO2 method only above the CO2
+compensation point, see `C08_stomat_log_argument_fails_at`). `stomat` leaves RSTOM at the 100 s/m set
+by the caller when the sun stays below 8° (DLE ≤ 0); otherwise AMAX ≥ 0.1 by the coded floor, the
+arguments of both logarithms are ≥ 1, both assimilation closures and the daily gross assimilation
+are positive, so RSTOM = CO2·(1 + SATDEF/SATBETA)/(ALPH·Agross) > 0. The sunshine hours are never
+raised. -/
+theorem C08_stomat_resistance_pos_partial (i : PIn ℚ) (t : Tr ℚ) (s : Sol ℚ) (satdef : ℚ)
+    (h : StomatOk i t s satdef) :
+    0 < (stomat i t s satdef 100.0).1 ∧ (s.dle ≤ 0 → (stomat i t s satdef 100.0).1 = 100) ∧
+    (stomat i t s satdef 100.0).2.1 ≤ i.sund ∧
+    (0 < s.dle → 0.1 ≤ (photo i t s).amax ∧ 1 ≤ (photo i t s).xArg ∧ 1 ≤ (photo i t s).yArg) := by
+  by_cases hd : s.dle ≤ 0
+  · have e : stomat i t s satdef 100.0 = (100.0, i.sund, i.radsumPrev) := by unfold stomat; rw [if_pos hd]
+    rw [e]
+    exact ⟨by norm_num, fun _ => by norm_num, le_refl _, fun h0 => absurd hd (not_le.mpr h0)⟩
+  · have hd' : 0 < s.dle := not_le.mp hd
+    have hok : PhotoOk i t s :=
+      { dle := hd', dl := lt_of_lt_of_le hd' h.dl, drc := h.drc hd', ssl0 := (h.ssl hd').1, ssl1 := (h.ssl hd').2,
+        comp := h.comp, logX := h.logX, logY := h.logY, eGrass0 := h.eGrass.1, eGrass1 := h.eGrass.2 }
+    have hp := photo_pos i t s hok
+    have hx := photo_xArg_ge i t s hok
+    have hc := satur_pos _ _ t.eC hp.1 hp.2.1 (h.eC (saturArg_neg _ _ hp.1 hp.2.1))
+    have ho := satur_pos _ _ t.eO hp.2.2 hp.2.1 (h.eO (saturArg_neg _ _ hp.2.2 hp.2.1))
+    have hg := dtga_pos i s _ _ hc ho hd' h.sund
+    have e : stomat i t s satdef 100.0 =
+        (rstomOf i.alph i.co2 satdef i.satbeta
+          (dtga i s (satur (photo i t s).phc3 (photo i t s).phc4 t.eC) (satur (photo i t s).pho3 (photo i t s).phc4 t.eO)).1,
+         (dtga i s (satur (photo i t s).phc3 (photo i t s).phc4 t.eC) (satur (photo i t s).pho3 (photo i t s).phc4 t.eO)).2.1,
+         (dtga i s (satur (photo i t s).phc3 (photo i t s).phc4 t.eC) (satur (photo i t s).pho3 (photo i t s).phc4 t.eO)).2.2) := by
+      unfold stomat; rw [if_neg hd]
+    rw [e]
+    refine ⟨rstomOf_pos _ _ _ _ _ h.alph h.co2 h.satdef h.satbeta hg, fun h0 => absurd h0 hd, dtga_sund_le _ _ _ _,
+      fun _ => ⟨?_, hx.1, hx.2⟩⟩
+    rw [photo_amax]; exact stoAmax_ge i t s
+
+/-- **Denominators of `stomat`** on a day with DLE > 0 (water.go:689, 741-745, 761-763, 776, 785, 790,
+800-801), under the same assumptions: every one of them is positive. -/
+theorem C08_stomat_denominators_pos (i : PIn ℚ) (t : Tr ℚ) (s : Sol ℚ) (satdef : ℚ)
+    (h : StomatOk i t s satdef) (hd : 0 < s.dle) :
+    0 < s.dle * 3600.0 ∧ 0 < t.sSsl * (photo i t s).amax ∧ 0 < (5.0 - t.sSsl) * (photo i t s).amax ∧
+    0 < 1 + t.logX ∧ 0 < 1 + t.logY ∧ 0 < 5.0 * (photo i t s).amax ∧ 0 < 1 + (photo i t s).z ∧
+    0 < (if (photo i t s).phc3 < (photo i t s).phc4 then (photo i t s).phc3 else (photo i t s).phc4) ∧
+    0 < (if (photo i t s).pho3 < (photo i t s).phc4 then (photo i t s).pho3 else (photo i t s).phc4) ∧
+    0 < 0.8 * s.drc ∧ 0 < i.co2 * (1 + satdef / i.satbeta) ∧
+    (i.co2meth = 1 → 0 < i.co2 + 2.0 * (17.5 * t.p2T)) := by
+  have hok : PhotoOk i t s :=
+    { dle := hd, dl := lt_of_lt_of_le hd h.dl, drc := h.drc hd, ssl0 := (h.ssl hd).1, ssl1 := (h.ssl hd).2,
+      comp := h.comp, logX := h.logX, logY := h.logY, eGrass0 := h.eGrass.1, eGrass1 := h.eGrass.2 }
+  have hp := photo_pos i t s hok
+  have hx := photo_xArg_ge i t s hok
+  have hz := photo_z_nonneg i t s hok
+  have ha : 0 < (photo i t s).amax := by rw [photo_amax]; have := stoAmax_ge i t s; linarith
+  have hs5 : 0 < 5.0 - t.sSsl := by have := (h.ssl hd).2; norm_num; linarith
+  have hsd : 0 ≤ satdef / i.satbeta := div_nonneg h.satdef h.satbeta.le
+  refine ⟨by positivity, mul_pos (h.ssl hd).1 ha, mul_pos hs5 ha, by have := h.logX hx.1; linarith,
+    by have := h.logY hx.2; linarith, by positivity, by linarith, ?_, ?_, by have := h.drc hd; positivity,
+    mul_pos h.co2 (by linarith), ?_⟩
+  · split_ifs
+    · exact hp.1
+    · exact hp.2.1
+  · split_ifs
+    · exact hp.2.2
+    · exact hp.2.1
+  · intro h1
+    have := (h.comp h1).1
+    have := h.co2
+    nlinarith
+
+/-- the same for the state the Penman-Monteith day under a crop leaves in RSTOM, with the
+saturation deficit of the day (non-negative for a relative humidity of at most 100 %) -/
+theorem C08_penman_rstom_pos_partial (i : PIn ℚ) (t : Tr ℚ) (h3 : i.meth = 3) (hc : i.crop = true)
+    (hmin : 0 < t.eTmin) (hmax : 0 < t.eTmax) (hrh : i.rh ≤ 100)
+    (h : ∀ sd : ℚ, 0 ≤ sd → StomatOk i t (dayLength t) sd) :
+    0 < (petRaw i t).rstom ∧ (petRaw i t).sund ≤ i.sund := by
+  have hs := satdefOf_nonneg i t hmin hmax hrh
+  have := C08_stomat_resistance_pos_partial i t (dayLength t) (satdefOf i t) (h _ hs)
+  have e : (petRaw i t).rstom = (stomat i t (dayLength t) (satdefOf i t) 100.0).1 ∧
+      (petRaw i t).sund = (stomat i t (dayLength t) (satdefOf i t) 100.0).2.1 := by
+    unfold petRaw
+    simp [h3, hc, penman, stomatOf]
+  rw [e.1, e.2]
+  exact ⟨this.1, this.2.2.1⟩
+
+/-! ### the excluded region: CO2 at or below the compensation point (first CO2 method) -/
+
+/-- a hot day: daily mean 50 °C (2^((50−10)/10) = 16, compensation point 280 ppm) at 250 ppm CO2 -/
+def hotDay : PIn ℚ :=
+  { meth := 3, crop := true, tagN := 190, ctrans := true, co2meth := 1, verd := 0, temp := 50, tmin := 47, tmax := 53,
+    rad := 12, sund := 10, rh := 30, wind := 2, etnull := 0, lat := 30, alti := 100, windhi := 2, kcoa := 1, fkc := 1,
+    fkb := 0.4, co2 := 250, mintmp := 2, alph := 40, satbeta := 2.5, dt := 1, et0Prev := 0, rstomPrev := 100,
+    satdefPrev := 0, radsumPrev := 0, fkf := [], fku := [] }
+
+def hotTr : Tr ℚ :=
+  { (Tr.ofList ([] : List ℚ)) with p2T := 16, sSsl := 0.9, logX := 0, logY := 0, eGrass := 0.316 }
+
+def hotSol : Sol ℚ :=
+  { dl := 14.5, dle := 13.2, ext := 40, rdn := 50000000, drc := 20000000, dec := 22, sinld := 0.2, cosld := 0.8,
+    rdnRaw := 50000000 }
+
+/-- **Outside the hypothesis the property fails**: at 50 °C and 250 ppm (first CO2 method) the
+light-use efficiency is negative and the argument of the first logarithm of `stomat`
+(water.go:741) is negative — `math.Log` returns NaN there, RSTOM becomes NaN and, with the CO2
+influence on the stomata switched on, so do ET0 and the potential ET of the day, which neither
+the floor nor the cap catches (replayed on the real code by the harness). -/
+theorem C08_stomat_log_argument_fails_at :
+    ¬ (17.5 * hotTr.p2T < hotDay.co2) ∧ (photo hotDay hotTr hotSol).effe < 0 ∧
+    (photo hotDay hotTr hotSol).xArg < 0 := by
+  refine ⟨by norm_num [hotTr, hotDay, Tr.ofList], ?_, ?_⟩ <;>
+    simp only [photo, stoEff, stoAmax, amaxT, hotDay, hotTr, hotSol, Tr.ofList] <;> norm_num
+
+/-! ### end to end -/
+
+/-- admissible state for the whole of `Evatra`: as `WF` for the partition part, with
+`elai = exp(−.5·LAI) ∈ [0, 1]` supplied from outside -/
+structure FullWF (f : FIn ℚ) (elai : ℚ) : Prop where
+  dz : 0 < f.part.dz
+  elai0 : 0 ≤ elai
+  elai1 : elai ≤ 1
+  wudich : ∀ d ∈ f.part.wudich, 0 ≤ d
+  top : f.part.wmin.headD 0 / 3 < f.part.w0
+
+theorem partition_verdu (i : In ℚ) : (partition i).verdu = (capSplit i.crop i.verdu0 i.elai).1 := by
+  unfold partition
+  cases hc : i.crop <;> simp only [Bool.false_eq_true, if_false, if_true]
+
+/-- **End to end.** For the whole model of `Evatra` (potential ET of the chosen method composed
+with the partition): the potential ET the partition works with is the floored and capped value of
+the method, it lies in [0, cap], and actual evaporation plus the uptake of all layers does not
+exceed it — for all five methods (and unknown method numbers), all weather, all values of the
+transcendental calls, all soil states. -/
+theorem C08_full_actual_le_potential_le_cap (f : FIn ℚ) (t : Tr ℚ) (elai : ℚ) (expc : List ℚ)
+    (h : FullWF f elai) :
+    (full f t elai expc).2.verdu = verdunst f.p t elai ∧
+    0 ≤ (full f t elai expc).2.verdu ∧ (full f t elai expc).2.verdu ≤ cap f.p.crop ∧
+    0 ≤ (full f t elai expc).2.eta ∧
+    (∀ x ∈ (full f t elai expc).2.tp, 0 ≤ x) ∧
+    (full f t elai expc).2.eta + (full f t elai expc).2.tp.sum ≤ (full f t elai expc).2.verdu := by
+  have hwf : WF { f.part with crop := f.p.crop, verdu0 := (petRaw f.p t).verdu0, elai := elai, expc := expc } :=
+    { dz := h.dz, elai0 := h.elai0, elai1 := h.elai1, wudich := h.wudich, top := h.top }
+  have e : (full f t elai expc).2 =
+      partition { f.part with crop := f.p.crop, verdu0 := (petRaw f.p t).verdu0, elai := elai, expc := expc } := rfl
+  have hv : (full f t elai expc).2.verdu = verdunst f.p t elai := by
+    rw [e, partition_verdu]; rfl
+  have hb := C08_pet_method_bounds f.p t elai
+  refine ⟨hv, by rw [hv]; exact hb.2.1, by rw [hv]; exact hb.2.2, ?_, ?_, ?_⟩
+  · rw [e]; exact (C08_eta_le_evmax _ hwf).1
+  · rw [e]; exact C08_tp_nonneg _ hwf
+  · rw [e]; exact (C08_actual_le_potential _ hwf).1
+
+/-! ### non-vacuity: an ordinary midsummer day satisfies every hypothesis used above -/
+
+def ordinaryDay : PIn ℚ :=
+  { meth := 3, crop := true, tagN := 180, ctrans := true, co2meth := 1, verd := 8, temp := 20, tmin := 14, tmax := 26,
+    rad := 0, sund := 8, rh := 60, wind := 3, etnull := 4, lat := 52, alti := 50, windhi := 10, kcoa := 1, fkc := 1.1,
+    fkb := 0.4, co2 := 400, mintmp := 2, alph := 40, satbeta := 2.5, dt := 1, et0Prev := 3, rstomPrev := 100,
+    satdefPrev := 0.9, radsumPrev := 500,
+    fkf := [0.1, 0.1, 0.2, 0.3, 0.4, 0.4, 0.4, 0.3, 0.2, 0.1, 0.1, 0.1],
+    fku := [0.1, 0.1, 0.1, 0.2, 0.2, 0.2, 0.2, 0.2, 0.1, 0.1, 0.1, 0.1] }
+
+/-- rational stand-ins for the transcendental values of that day (2^((20−10)/10) = 2 exactly,
+pow(257.3, 2) = 66203.29 exactly) -/
+def ordinaryTr : Tr ℚ :=
+  { sDec := 0.99, sinDec := 0.39, sinLat := 0.79, cosDec := 0.92, cosLat := 0.62, asDL := 0.55, sin8 := 0.139,
+    asDLE := 0.27, cosYear := -0.99, tanLat := 1.28, tanDec := 0.43, sha := 2.15, sinSha := 0.84, pw2 := 0.29,
+    sq := 0.84, eDrc := 0.99, pAtm := 0.994, eTmax := 5.5, eTmin := 2.6, eTminPT := 2.6, eT := 3.83,
+    pT2 := 66203.29, p4min := 6797000000, p4max := 8010000000, sqVap := 1.22, sqVapPT := 1.26, logW := 6.51,
+    p2T := 2, cosTag := -0.99, sSsl := 0.88, logX := 5.1, logY := 3.6, eGrass := 0.316, eC := 0.02, eO := 0.3 }
+
+example : RadOk ordinaryDay ordinaryTr ∧ (0.0947 : ℚ) < ordinaryDay.windhi ∧
+    (1 < 67.8 * ordinaryDay.windhi - 5.42 → 0 < ordinaryTr.logW) ∧ (-122 : ℚ) < ordinaryDay.temp := by
+  refine ⟨⟨?_, ?_, ?_, ?_, ?_, ?_, ?_, ?_, ?_⟩, ?_, ?_, ?_⟩ <;> norm_num [ordinaryDay, ordinaryTr]
+
+example : (-(pi / 2) ≤ ordinaryTr.asDL ∧ ordinaryTr.asDL ≤ pi / 2) ∧
+    (-(pi / 2) ≤ ordinaryTr.asDLE ∧ ordinaryTr.asDLE ≤ pi / 2) ∧ ordinaryTr.asDLE ≤ ordinaryTr.asDL := by
+  norm_num [ordinaryTr, pi]
+
+/-- the hypotheses of the canopy-resistance theorems hold on that day (sun above 8° for 14 h) -/
+example : ∀ sd : ℚ, 0 ≤ sd → StomatOk ordinaryDay ordinaryTr (dayLength ordinaryTr) sd := by
+  intro sd hsd
+  have hdle : (dayLength ordinaryTr).dle = 12.0 * (pi + 2.0 * 0.27) / pi := dayLength_dle _
+  have hdl : (dayLength ordinaryTr).dl = 12.0 * (pi + 2.0 * 0.55) / pi := dayLength_dl _
+  have hdl0 : 0 < (dayLength ordinaryTr).dl := by rw [hdl]; norm_num [pi]
+  have hdrc : 0 < (dayLength ordinaryTr).drc := by
+    unfold dayLength
+    simp only
+    rw [if_pos (by norm_num [ordinaryTr, pi])]
+    norm_num [ordinaryTr, pi]
+  exact
+    { alph := by norm_num [ordinaryDay], co2 := by norm_num [ordinaryDay], satbeta := by norm_num [ordinaryDay],
+      satdef := hsd, sund := by norm_num [ordinaryDay],
+      dl := by rw [hdle, hdl]; norm_num [pi],
+      drc := fun _ => hdrc,
+      ssl := fun _ => by norm_num [ordinaryTr],
+      comp := fun _ => by norm_num [ordinaryTr, ordinaryDay],
+      logX := fun _ => by norm_num [ordinaryTr], logY := fun _ => by norm_num [ordinaryTr],
+      eGrass := by norm_num [ordinaryTr],
+      eC := fun _ => by norm_num [ordinaryTr], eO := fun _ => by norm_num [ordinaryTr] }
+
+/-- a composed state satisfying `FullWF` (the `cropDay` of the partition part under `ordinaryDay`) -/
+example : FullWF { p := ordinaryDay, part := cropDay, lai := 1.8, prop := 0.3 } 0.4 := by
+  refine ⟨by norm_num [cropDay], by norm_num, by norm_num, ?_, by norm_num [cropDay]⟩
+  intro d hd; simp [cropDay] at hd; rcases hd with rfl | rfl | rfl <;> norm_num
+
+end Hermes.EvatraPet
